@@ -228,6 +228,9 @@ type World struct {
 	OnCrash      func(w *World) *Violation
 	PanicSig     func(w *World) map[string]string // signature of a recovered worker panic (known-finding matching)
 	PanicProp    string
+	// DiscoveryDown: "<group>/<version>" ("/v1" = core) whose discovery document is
+	// answered 503 for the time being
+	DiscoveryDown map[string]bool
 	// ConnectedHook, when set, is asked by quiet stages in addition to the built-in
 	// test "every live informer of the process has an open watch" (scenarios that run
 	// an informer factory of their own)
@@ -637,6 +640,12 @@ func (w *World) answerNetErr(r *ReqRec, msg string) {
 // apply executes the request against the store. It returns the HTTP answer.
 func (w *World) apply(r *ReqRec, p *parsedPath) (int, []byte, *WatchStream, *StatusErr) {
 	s := w.Store
+	if p.Discovery == "gv" && w.DiscoveryDown[p.Group+"/"+p.Version] {
+		// an aggregated API that is unavailable for a while: discovery of this one
+		// group-version fails, the others are served (client-go reports partial results)
+		w.FaultsFired["discovery:group-version-unavailable"]++
+		return 0, nil, nil, &StatusErr{Code: 503, Reason: "ServiceUnavailable", Message: "injected: the server is currently unable to handle the request"}
+	}
 	if p.Discovery != "" {
 		b, e := s.discoveryDoc(p)
 		if e != nil {
